@@ -47,10 +47,8 @@ func getterCrc32(ctx *Ctx, buf *any, args []any) (err error) {
 			}
 		}
 	}
-	if ctx.BufAcc.StakedLen() > 0 {
-		ctx.bufI = int64(crc32.ChecksumIEEE(ctx.BufAcc.StakedBytes()))
-		*buf = &ctx.bufI
-	}
+	ctx.bufI = int64(crc32.ChecksumIEEE(ctx.BufAcc.StakedBytes()))
+	*buf = &ctx.bufI
 	return
 }
 
